@@ -702,21 +702,14 @@ Definition apply_newlen (fs : list (name * afun)) (d : name) (n : nat) : nat :=
 Lemma apply_news_ok f : forall fs,
   apply_dom f fs = true ->
   exists news,
-    mapM (fun p => match lookup (fst p) (fdims f) with
-                   | None => Raise
-                   | Some (n, _) =>
-                       let n0 := match lookup (fst p) (fvars f) with
-                                 | Some v => match vshape v with [m] => m | _ => n end
-                                 | None => n end in
-                       match afun_len (snd p) n0 with Some m => Ok (fst p, m) | None => Raise end
-                   end) fs = Ok news
+    mapM (apply_new1 f) fs = Ok news
     /\ forall d n u, lookup d (fdims f) = Some (n, u) ->
          match lookup d news with Some c => c | None => n end = apply_newlen fs d n.
 Proof.
   induction fs as [|[d g] fs IH]; intros D.
   - exists []. split; [reflexivity|]. intros. reflexivity.
   - simpl in D. apply andb_true_iff in D as [D1 D2]. apply andb_true_iff in D1 as [D1 CC]. apply andb_true_iff in D1 as [HD TT].
-    destruct (IH D2) as (news & E & L). simpl.
+    destruct (IH D2) as (news & E & L). simpl. unfold apply_new1 at 1. simpl.
     unfold has in HD. destruct (lookup d (fdims f)) as [[n u]|] eqn:Ed; [|discriminate].
     assert (N0 : match lookup d (fvars f) with
                  | Some v => match vshape v with [m] => m | _ => n end
@@ -737,7 +730,7 @@ Lemma relen_total (h : name -> nat -> nat) : forall T,
 Proof.
   unfold relen. induction T as [|[a [n u]] T IH]; simpl.
   - exists []. split; auto.
-  - destruct IH as (T' & E & L). rewrite E. simpl. eexists. split; [reflexivity|].
+  - destruct IH as (T' & E & L). simpl in E. rewrite E. simpl. eexists. split; [reflexivity|].
     intros k. simpl. destruct (Nat.eqb k a) eqn:Ek; [apply Nat.eqb_eq in Ek; subst; reflexivity|apply L].
 Qed.
 
